@@ -642,7 +642,20 @@ func invalidate(r *rand.Rand, op model.Op, a *model.Args) {
 		}
 	case model.SetTimeProfile:
 		p := a.Profile
-		switch r.Intn(8) {
+		switch r.Intn(10) {
+		case 8: // a segment filed under a key outside 1..3 instead of its own: still 3 entries, one of 1..3 missing
+			if p.Segments != nil {
+				k := uint8(1 + r.Intn(3))
+				p.Segments[pick(r, uint8(0), 4, 5, 255)] = p.Segments[k]
+				delete(p.Segments, k)
+				if r.Intn(2) == 0 {
+					p.Segments[pick(r, uint8(6), 7, 128)] = model.Segment{}
+				}
+			}
+		case 9: // stray entries beside a complete 1..3: never a reason to reject, whatever they hold
+			if p.Segments != nil {
+				p.Segments[pick(r, uint8(0), 4, 255)] = model.Segment{Start: model.HHmm{H: 18, M: 0}, End: model.HHmm{H: 17, M: 0}}
+			}
 		case 0:
 			p.From.Zero = true
 		case 1:
